@@ -44,7 +44,7 @@ PROBES = ["key_update", "key_update_requested", "simultaneous_keyupdate",
           "illegal_heartbeat", "illegal_ccs", "illegal_certificate",
           "illegal_finished", "ku_not_aligned", "nst", "secrets_checked",
           "pha_order_checked", "resumed", "hrr",
-          "heartbeat_record_boundary"]
+          "heartbeat_record_boundary", "pha_declined", "pha_replay"]
 COMPONENTS_REAL = ["tlslite post-handshake paths: KeyUpdate, PHA, "
                    "heartbeat, NewSessionTicket processing in readAsync"]
 COMPONENTS_STUB = ["socket", "os.urandom", "clock"]
@@ -81,7 +81,8 @@ def run(job, streams=None):
             sc["cset"]["keyShares"] = []
             probes["hrr"] = 1
         if ch.draw(2, "cfg.cauth"):
-            sc["ckey"] = ["rsa", "ecdsa", "ed25519"][ch.draw(3, "cfg.ckey")]
+            sc["ckey"] = ["rsa", "ecdsa", "ed25519", "empty"][
+                ch.draw(4, "cfg.ckey")]
             # a small receive limit on the server spreads the client's
             # post-handshake flight over several records
             lim = [None, 64, 200, 600][ch.draw(4, "cfg.srvlimit")]
@@ -206,6 +207,14 @@ def run(job, streams=None):
         else:
             probes["pha_order_checked"] = 1
     sim.invariants.append(pha_invariant)
+    seen_cr = []
+    if tls13:
+        orig_pha = conns["c"]._handle_pha
+
+        def spy_pha(cert_request):
+            seen_cr.append(cert_request)
+            return orig_pha(cert_request)
+        conns["c"]._handle_pha = spy_pha
     can_hb = {w: conns[w].heartbeat_supported and conns[w].heartbeat_can_send
               for w in "cs"}
     pha_ok = tls13 and sc.get("ckey") and conns["s"]._pha_supported
@@ -272,7 +281,9 @@ def run(job, streams=None):
                         probes["heartbeat_short_padding"] = 1
                     probes["heartbeat"] = 1
                 elif k == 3 and w == "s" and pha_ok and pha_count < 2:
-                    ops.append([w, "pha"])
+                    # (variant 1: the request does not offer certificate
+                    # compression, so the answer is a plain Certificate)
+                    ops.append([w, "pha", ch.draw(3, "r.phavar") == 1])
                     pha_count += 1
                     probes["pha"] = 1
             both_ku += ku_this
@@ -310,7 +321,14 @@ def run(job, streams=None):
             return lambda: conn.write_heartbeat(
                 bytearray(bytes.fromhex(op[2])), op[3])
         if op[1] == "pha":
+            if len(op) > 2 and op[2]:
+                from tlslite.api import HandshakeSettings
+                hs_ = HandshakeSettings()
+                hs_.certificate_compression_receive = []
+                return lambda: conn.request_post_handshake_auth(hs_)
             return lambda: conn.request_post_handshake_auth()
+        if op[1] == "pha_again":
+            return lambda: orig_pha(seen_cr[-1])
         if op[1] == "raw":
             return lambda: conn._sendMsg(op[2])
         if op[1] == "rawrec":
@@ -384,7 +402,15 @@ def run(job, streams=None):
             elif hb_sent[w]:
                 processed = True
         # PHA
-        if pha_count:
+        if pha_count and sc["ckey"] == "empty":
+            got = conns["s"].session.clientCertChain
+            if got is not None and got.x509List:
+                v("pha", "chain_from_nowhere", "the client declined (empty "
+                  "Certificate) but the server session names a chain")
+            else:
+                processed = True
+                probes["pha_declined"] = 1
+        elif pha_count:
             want = creds.load("client", sc["ckey"])[0]
             got = conns["s"].session.clientCertChain
             if got is None or got.x509List[0].bytes != \
@@ -397,6 +423,31 @@ def run(job, streams=None):
             probes["nst"] = 1
         # ---- optional illegal control message
         ill = ch.draw(8, "i.kind")
+        if ill in (6, 7) and pha_count and seen_cr and not viol:
+            # the client answers an already answered CertificateRequest a
+            # second time (after a decline: now with a real certificate)
+            if sc["ckey"] == "empty":
+                conns["c"]._client_keypair = creds.load("client", "rsa")
+            probes["pha_replay"] = 1
+            ops = [["c", "pha_again"], ["c", "write", wrote["c"], 5],
+                   ["s", "read", None, 5]]
+            sim_script.run_script(sim, eps, ops, op_gen)
+            rd = [o for o in eps["s"].history if o.desc[0] == "read"]
+            last = rd[-1]
+            ctx[0] = "[illegal=pha_replay scenario=%s]" % json.dumps(
+                sc, sort_keys=True)
+            if last.kind == "ok":
+                v("illegal_control_tolerated", "pha_replay|%s" % (
+                    "after_decline" if sc["ckey"] == "empty" else
+                    "after_auth"),
+                  "the server accepted a second Certificate flight for a "
+                  "CertificateRequest that had already been answered")
+            elif not (isinstance(last.exc, TLSLocalAlert) and
+                      last.exc.level == 2):
+                v("illegal_control_wrong_error", "pha_replay|%s" %
+                  type(last.exc).__name__, "second answer to a "
+                  "CertificateRequest surfaced as %r" % (last.exc,))
+            processed = True
         if ill in (1, 2, 3, 4, 5):
             w = "cs"[ch.draw(2, "i.who")]
             peer = "s" if w == "c" else "c"
